@@ -255,8 +255,10 @@ static const char *METHODS[] = { "OPTIONS", "GET", "HEAD", "POST", "PUT", "DELET
 	"M-SEARCH", "M-POST", "SUBSCRIBE", "UNSUBSCRIBE", "PATCH" /* extension token */ };
 static const uint32_t METHOD_CODE[] = { 1, 2, 3, 4, 5, 6, 7, 8, 9, 10, 11, 12, 13, 0 };
 #define NMETHODS 14
-static const char *SEGS[] = { "", "a", "b.c" };
-static const char *QUERIES[] = { NULL, "", "q=1", "a=&b" };
+static const char *SEGS[] = { "", "a", "b.c", "c:" };	/* pchar includes ':' - with an empty segment behind it the path contains "://" */
+#define NSEGS 4
+static const char *QUERIES[] = { NULL, "", "q=1", "a=&b", "u=x://y/z" };	/* query = *( pchar / "/" / "?" ): a URL inside the query */
+#define NQUERIES 5
 static const char *SCHEMES[] = { "http", "HTTPS" };
 static const char *AUTHS[] = { "h", "h:80", "[::1]:8" };
 static const char *VERSIONS[] = { "HTTP/1.0", "HTTP/1.1" };
@@ -370,16 +372,16 @@ gen_req_all(void) {
 		if (0 == strcmp(METHODS[m], "OPTIONS") || 0 == strcmp(METHODS[m], "M-SEARCH")) /* 5.3.4; UPnP "M-SEARCH * HTTP/1.1" */
 			gen_req_emit(m, FORM_ASTERISK, 0, 0, "", 0, v);
 		for (depth = 0; depth <= 3; depth ++) {
-			int combos = 1; for (i = 0; i < depth; i ++) combos *= 3;
+			int combos = 1; for (i = 0; i < depth; i ++) combos *= NSEGS;
 			for (n = 0; n < combos; n ++) {
-				int x = n; for (i = 0; i < depth; i ++) { s[i] = x % 3; x /= 3; }
+				int x = n; for (i = 0; i < depth; i ++) { s[i] = x % NSEGS; x /= NSEGS; }
 				for (lead = 0; lead <= 2; lead ++) for (trail = 0; trail <= 2; trail ++) {
 					size_t o = 0;
 					for (i = 0; i < lead; i ++) path[o ++] = '/';
 					for (i = 0; i < depth; i ++) { path[o ++] = '/'; memcpy(path + o, SEGS[s[i]], strlen(SEGS[s[i]])); o += strlen(SEGS[s[i]]); }
 					for (i = 0; i < trail; i ++) path[o ++] = '/';
 					path[o] = 0;
-					for (q = 0; q < 4; q ++) {
+					for (q = 0; q < NQUERIES; q ++) {
 						if (o > 0) gen_req_emit(m, FORM_ORIGIN, 0, 0, path, q, v);	/* absolute-path = 1*( "/" segment ) */
 						for (sc = 0; sc < 2; sc ++) for (au = 0; au < 3; au ++)
 							gen_req_emit(m, FORM_ABSOLUTE, sc, au, path, q, v);	/* path-abempty */
@@ -388,6 +390,40 @@ gen_req_all(void) {
 			}
 		}
 	}
+}
+
+/* components longer than 16 bits can count: the grammar puts no bound on a segment, a query, a host or a scheme */
+static void
+long_req_case(int which, size_t L) {
+	static const char *WN[4] = { "path", "query", "authority", "scheme" };
+	size_t cap = L + 64, n = 0, po = 0, pl = 0, qo = 0, ql = 0, ho = 0, hl = 0, so = 0, sl = 0, hdr; uint8_t *buf; http_req_line_data_t d; int rc;
+	if (!vh_begin("http_parse_req_line")) return;
+	vh_desc("long request line: %s of %zu bytes", WN[which], L);
+	buf = (uint8_t *)malloc(cap);
+	memcpy(buf, "GET ", 4); n = 4;
+	switch (which) {
+	case 0: po = n; buf[n ++] = '/'; memset(buf + n, 'a', L); n += L; pl = L + 1; break;
+	case 1: po = n; memcpy(buf + n, "/p?", 3); n += 3; pl = 2; qo = n; memset(buf + n, 'q', L); n += L; ql = L; break;
+	case 2: so = n; memcpy(buf + n, "http://", 7); n += 7; sl = 4; ho = n; memset(buf + n, 'h', L); n += L; hl = L; po = n; memcpy(buf + n, "/p", 2); n += 2; pl = 2; break;
+	default: so = n; memset(buf + n, 's', L); n += L; sl = L; memcpy(buf + n, "://h", 4); n += 4; ho = n - 1; hl = 1; po = n; memcpy(buf + n, "/p", 2); n += 2; pl = 2; break;
+	}
+	memcpy(buf + n, " HTTP/1.1\r\n\r\n", 13); n += 13;
+	hdr = n;
+	memset(&d, 0xA5, sizeof(d));
+	rc = http_parse_req_line(buf, hdr, &d);
+	if (0 != rc) vh_fail("wellformed-rejected", "rc=%d for a well-formed request line with a %s of %zu bytes", rc, WN[which], L);
+	else if (d.abs_path != buf + po || d.abs_path_size != pl) vh_fail("path-span", "got off=%td len=%zu want off=%zu len=%zu", d.abs_path ? d.abs_path - buf : (ptrdiff_t)-1, (size_t)d.abs_path_size, po, pl);
+	else if ((ql && d.query != buf + qo) || d.query_size != ql) vh_fail("query-span", "got len=%zu want off=%zu len=%zu", (size_t)d.query_size, qo, ql);
+	else if ((hl && d.host != buf + ho) || d.host_size != hl) vh_fail("authority-span", "got len=%zu want off=%zu len=%zu", (size_t)d.host_size, ho, hl);
+	else if ((sl && d.scheme != buf + so) || d.scheme_size != sl) vh_fail("scheme-span", "got len=%zu want off=%zu len=%zu", (size_t)d.scheme_size, so, sl);
+	else vh_nontrivial();
+	free(buf);
+}
+static void
+gen_req_long(void) {
+	static const size_t LS[4] = { 65535, 65536, 65537, 200001 };
+	int w, i;
+	for (w = 0; w < 4; w ++) for (i = 0; i < 4; i ++) long_req_case(w, LS[i]);
 }
 
 /* http_get_method_fast directly: table entries and near misses (tokens that are not in the table) */
@@ -716,6 +752,9 @@ main(int argc, char **argv) {
 	vh_set_describer(describe);
 	gen_method_fast();
 	gen_req_all();
+	vh_set_describer(NULL);
+	gen_req_long();
+	vh_set_describer(describe);
 	gen_resp_all();
 	gen_hdr_all();
 	printf("NOTE\tselfcheck_mismatch=%llu\n", (unsigned long long)selfcheck_mismatch);
